@@ -352,18 +352,31 @@ func applyMutation(m *rhpmitm.Msg, mu mutation, donor *recorded, custom customMu
 
 // outcome of a monitored client call.
 type outcome struct {
-	Res      any
-	Err      error
-	Panic    any
-	Stack    string // where the client panicked
-	Hung     bool
-	Duration time.Duration
+	Res   any
+	Err   error
+	Panic any
+	Stack string // where the client panicked
+	Hung  bool
+	// Unblocked: the call only came back after the lab killed its stream
+	Unblocked bool
+	Duration  time.Duration
 }
 
 // monitoredCall runs fn with a context deadline; a call that has not returned
 // hangSlack after its deadline is reported as hung (and abandoned).
 func monitoredCall(deadline time.Duration, fn func(ctx context.Context) (any, error)) outcome {
+	return monitoredCallCtx(deadline, false, nil, fn)
+}
+
+// monitoredCallCtx: with noDeadline the call gets context.Background() (the
+// caller gave no deadline); if it has not returned after deadline, unblock is
+// called (it must make the call return) and the outcome is marked Hung.
+func monitoredCallCtx(deadline time.Duration, noDeadline bool, unblock func(), fn func(ctx context.Context) (any, error)) outcome {
 	ctx, cancel := context.WithTimeout(context.Background(), deadline)
+	if noDeadline {
+		cancel()
+		ctx, cancel = context.WithCancel(context.Background())
+	}
 	defer cancel()
 	done := make(chan outcome, 1)
 	start := time.Now()
@@ -381,6 +394,23 @@ func monitoredCall(deadline time.Duration, fn func(ctx context.Context) (any, er
 		o.Duration = time.Since(start)
 		done <- o
 	}()
+	if noDeadline {
+		select {
+		case o := <-done:
+			return o
+		case <-time.After(deadline):
+			if unblock != nil {
+				unblock()
+			}
+			select {
+			case o := <-done:
+				o.Unblocked = true
+				return o
+			case <-time.After(hangSlack):
+				return outcome{Hung: true, Duration: time.Since(start)}
+			}
+		}
+	}
 	select {
 	case o := <-done:
 		return o
